@@ -141,18 +141,19 @@ def run(res, tier, replay):
     # while the data file read last belongs to a later part; nothing of it may reach the second set's members
     for i in range(3 if tier == "quick" else 20):
         from vlib import cabfmt
+        r2 = random.Random(900 + i)          # (own generator state: the same sets on every run)
         def two_part(tag):
             # alternately: one folder split over both parts / one folder per part (the second part's member then lives wholly in the part read last)
             if i % 2 == 0:
-                fos = [cabfmt.Folder(("none",), cabfmt.random_members(rng, 1, lens=[700])), cabfmt.Folder(("none",), cabfmt.random_members(rng, 1, lens=[900]))]
+                fos = [cabfmt.Folder(("none",), cabfmt.random_members(r2, 1, lens=[700])), cabfmt.Folder(("none",), cabfmt.random_members(r2, 1, lens=[900]))]
                 cuts = [(0, "end", 0)]
             else:
-                fos = [cabfmt.Folder(("none",), cabfmt.random_members(rng, 2, lens=[9000, 9000]))]; cuts = [(0, 0, 12000)]
+                fos = [cabfmt.Folder(("none",), cabfmt.random_members(r2, 2, lens=[9000, 9000]))]; cuts = [(0, 0, 12000)]
             k_ = 0
             for fo_ in fos:
-                fo_.prepare(rng)
+                fo_.prepare(r2)
                 for m_ in fo_.members: m_.name = b"%s%d.txt" % (tag, k_); k_ += 1
-            cabs, names = cabfmt.build_set(fos, cuts, rng, names=[b"%s1.cab" % tag, b"%s2.cab" % tag])
+            cabs, names = cabfmt.build_set(fos, cuts, r2, names=[b"%s1.cab" % tag, b"%s2.cab" % tag])
             return fos, cabs
         foA, cabsA = two_part(b"a"); foB, cabsB = two_part(b"b")
         base2 = lambda: scenario.Scn().file("b0.cab", cabsB[0]).file("b1.cab", cabsB[1])
